@@ -125,7 +125,10 @@ class ExpressionFunction(Callable, SimpleRepr):
         return [ v for v in self.exp_vars if v not in self._fixed_vars]
 
     def partial(self, **kwargs):
-        return ExpressionFunction(self.expression, **kwargs)
+        # Keep the variables that have already been fixed.
+        fixed_vars = dict(self._fixed_vars)
+        fixed_vars.update(kwargs)
+        return ExpressionFunction(self.expression, self._source_file, **fixed_vars)
 
     def __call__(self, **kwargs):
         # Note that we only accept named arguments !
